@@ -16,6 +16,7 @@
 #include <linux/futex.h>
 #include <limits.h>
 #include <sys/mman.h>
+#include <cxxabi.h>
 
 namespace photon { extern volatile uint64_t now __attribute__((weak)); }
 
@@ -190,9 +191,18 @@ done:
 }
 
 void check_poison(uintptr_t a, int size, uintptr_t pc, const char* what) {
-    for (int i = 0; i < NP; i++) if (a < PZ[i].hi && a + size > PZ[i].lo)
-        pmc_violation("poisoned-access", "%s of %d bytes at %lx (pc %lx) inside a region the harness marked dead [%lx,%lx) by T%d", what, size,
-                      (unsigned long)a, (unsigned long)pc, (unsigned long)PZ[i].lo, (unsigned long)PZ[i].hi, self ? self->id : -1);
+    for (int i = 0; i < NP; i++) if (a < PZ[i].hi && a + size > PZ[i].lo) {
+        // name the function containing the access (binary is linked with -rdynamic) so that the signature identifies the call site
+        char fn[160] = "?"; Dl_info di;
+        if (dladdr((void*)pc, &di) && di.dli_sname) {
+            int st = 0; char* dm = abi::__cxa_demangle(di.dli_sname, nullptr, nullptr, &st);
+            snprintf(fn, sizeof fn, "%s", dm ? dm : di.dli_sname); free(dm);
+            char* par = strchr(fn, '('); if (par) *par = 0;
+        }
+        char sig[220]; snprintf(sig, sizeof sig, "poisoned-access:%s", fn);
+        pmc_violation(sig, "%s of %d bytes at %lx (pc %lx in %s) inside a region the harness marked dead [%lx,%lx) by T%d", what, size,
+                      (unsigned long)a, (unsigned long)pc, fn, (unsigned long)PZ[i].lo, (unsigned long)PZ[i].hi, self ? self->id : -1);
+    }
 }
 
 #define ON() (active && self)
